@@ -484,7 +484,10 @@ impl Circle2 {
             return None;
         }
 
-        let angle = f64::asin(self.ball.radius / d);
+        // The half angle at the center of the circle between the direction to the point and the
+        // direction to either tangent point: the tangent point, the center and the test point form
+        // a right triangle with the right angle at the tangent point
+        let angle = f64::acos(self.ball.radius / d);
         let theta = f64::atan2(point.y - self.center.y, point.x - self.center.x);
 
         let p0 = Point2::new(
